@@ -6,6 +6,7 @@ Line protocol for the C15 model (one s-expression in, one out):
   (issol CNF ASG)               -> T | F
   (resolve C1 C2 NAME)          -> CLAUSE            (canonical order)
   (checktrace CNF N0 PROOFS)    -> T | F
+  (checkproofs CNF PROOFS)      -> T | F             (CNF = the input; learned clauses are rebuilt)
   (tseitin FORM (FORM ...))     -> CNF               (second argument: the subterm numbering)
 FORM = (atom n) | (not F) | (and F F) | (or F F) | (imp F F) | (iff F F)
 CNF = (CLAUSE ...), CLAUSE = ((name T|F) ...), ASG = ((name T|F) ...), PROOFS = ((id (i ...)) ...)
@@ -67,6 +68,10 @@ def handle (line : String) : String :=
     match cnfOf cnf, n0.toNat?, proofsOf ps with
     | some c, some n, some p => toString (Sexp.ofBool (checkTrace c n p))
     | _, _, _ => "bad-op"
+  | some (.list [.atom "checkproofs", cnf, ps]) =>
+    match cnfOf cnf, proofsOf ps with
+    | some c, some p => toString (Sexp.ofBool (checkProofs c p))
+    | _, _ => "bad-op"
   | some (.list [.atom "tseitin", f, order]) =>
     match formOf f, (do (← order.toList?).mapM formOf) with
     | some f, some o => toString (cnfTo (tseitinOrd f o))
